@@ -191,23 +191,32 @@ func VH_C03_companion_arcs() {
 	x1, y1 := rx*c1*cphi-ry*s1*sphi, rx*c1*sphi+ry*s1*cphi
 	phi := math.Atan2(sphi, cphi)
 	p := &Path{d: []float64{MoveToCmd, x0, y0, MoveToCmd, ArcToCmd, rx, ry, phi, fromArcFlags(large, sweep), x1, y1, ArcToCmd}}
-	tol := 0.01
+	// a coarse and a fine tolerance: an approximation whose error does not shrink with the
+	// tolerance (D83: arcs were flattened through Béziers that are 0.2 % of the radius off) only
+	// shows at the fine one
+	tol := []float64{0.01, 0.0005}[vChoose(0, 1)]
 	f := p.Flatten(tol)
 	co := f.Coords()
 	onlyLines := true
 	for i := 0; i < len(f.d); i += cmdLen(f.d[i]) {
 		onlyLines = onlyLines && (f.d[i] == MoveToCmd || f.d[i] == LineToCmd)
 	}
-	worst := 0.0
-	for _, q := range co {
+	worst, worstMid := 0.0, 0.0
+	dev := func(q Point) float64 {
 		// implicit equation of the ellipse around the origin
 		u := (cphi*q.X + sphi*q.Y) / rx
 		v := (-sphi*q.X + cphi*q.Y) / ry
-		e := math.Abs(math.Sqrt(u*u+v*v)-1) * ry // distance scale: the smaller radius
-		worst = math.Max(worst, e)
+		return math.Abs(math.Sqrt(u*u+v*v)-1) * ry // a lower bound of the distance: scale of the smaller radius
+	}
+	for i, q := range co {
+		worst = math.Max(worst, dev(q))
+		if i > 0 {
+			worstMid = math.Max(worstMid, dev(co[i-1].Interpolate(q, 0.5)))
+		}
 	}
 	vAssert("C03.companion.arc_flatten_lines_from_start_to_end", onlyLines && len(co) >= 2 && vhPtEq(co[0], Point{x0, y0}) && vhNearPt(co[len(co)-1], Point{x1, y1}))
 	vAssert("C03.companion.arc_flatten_vertices_near_ellipse", worst <= 2*tol)
+	vAssert("C03.companion.arc_flatten_chords_near_ellipse", worstMid <= 2*tol)
 	r := p.ReplaceArcs()
 	noArcs := true
 	for i := 0; i < len(r.d); i += cmdLen(r.d[i]) {
